@@ -329,6 +329,7 @@ func (m *refModel) step(c *c37Case, sc c37Scrape, T int64, bodyLen int, obs obsS
 		}
 		seenInBody := map[string]bool{}
 		accInBody := map[string]bool{}
+		forked := map[string]bool{}
 		reachLimit := 0   // appends that reach the sample limit the way the loop counts them
 		maybeCounted := 0 // repeated metric strings the loop may or may not have counted
 		limitHit, bucketHit := false, false
@@ -403,9 +404,17 @@ func (m *refModel) step(c *c37Case, sc c37Scrape, T int64, bodyLen int, obs obsS
 				}
 			}
 			var acc int
-			if uncertain && !overOnly {
+			switch {
+			case forked[mr.key]:
+				// an earlier open question about this series in this body: everything after it is open too
+				uncertain, overOnly = true, false
+				acc = m.book.peek(mr.key, t, v)
+			case uncertain && !overOnly:
 				acc = m.book.peek(mr.key, t, v) // recorded only if it is observed
-			} else {
+				if acc == accNew {
+					forked[mr.key] = true
+				}
+			default:
 				acc = m.book.attempt(mr.key, t, v)
 			}
 			ok := acc == accNew || acc == accNoop
